@@ -94,6 +94,7 @@ type wireReq struct {
 }
 
 type recServer struct {
+	respSize int
 	ln    net.Listener
 	tls   bool
 	mu    sync.Mutex
@@ -162,9 +163,16 @@ func (s *recServer) serve(c net.Conn, id int) {
 		s.mu.Lock()
 		s.reqs = append(s.reqs, wireReq{Conn: id, Method: req.Method, URI: req.RequestURI, Proto: req.Proto, Host: req.Host, Headers: h, Body: string(body), TLS: s.tls})
 		s.mu.Unlock()
-		resp := "HTTP/1.1 200 OK\r\nContent-Length: 2\r\nContent-Type: text/plain\r\n\r\nok"
+		s.mu.Lock()
+		size := s.respSize
+		s.mu.Unlock()
+		payload := "ok"
+		if size > 2 {
+			payload = strings.Repeat("r", size)
+		}
+		resp := fmt.Sprintf("HTTP/1.1 200 OK\r\nContent-Length: %d\r\nContent-Type: text/plain\r\n\r\n%s", len(payload), payload)
 		if req.Close {
-			resp = "HTTP/1.1 200 OK\r\nContent-Length: 2\r\nConnection: close\r\n\r\nok"
+			resp = fmt.Sprintf("HTTP/1.1 200 OK\r\nContent-Length: %d\r\nConnection: close\r\n\r\n%s", len(payload), payload)
 		}
 		if _, err := c.Write([]byte(resp)); err != nil || req.Close {
 			return
@@ -243,10 +251,11 @@ type C09Cell struct {
 	NoKeep    bool     `json:"no_keepalive"`
 	Instances int      `json:"instances"`
 	Gun       string   `json:"gun"` // http | connect
+	RespSize  int      `json:"resp_size,omitempty"` // size of the target's response body (0: 2 bytes)
 }
 
 func (c C09Cell) Name() string {
-	return fmt.Sprintf("%s|option=%v|ssl=%v|nokeep=%v|instances=%d|gun=%s", c.File.Name(), c.Option, c.SSL, c.NoKeep, c.Instances, c.Gun)
+	return fmt.Sprintf("%s|option=%v|ssl=%v|nokeep=%v|instances=%d|gun=%s|resp=%d", c.File.Name(), c.Option, c.SSL, c.NoKeep, c.Instances, c.Gun, c.RespSize)
 }
 
 var formatType = map[string]string{"uri": "uri", "uripost": "uripost", "raw": "raw", "jsonline": "http/json"}
@@ -296,6 +305,9 @@ func runC09Cell(c C09Cell) (verr error) {
 		return fmt.Errorf("HARNESS: listen: %v", err)
 	}
 	addr := srv.ln.Addr().String()
+	srv.mu.Lock()
+	srv.respSize = c.RespSize
+	srv.mu.Unlock()
 	data := render(c.File.Format, c.File.Items, c.File.Layout)
 	_ = afero.WriteFile(memfs, "/ammo", data, 0o644)
 	conf := map[string]any{"type": formatType[c.File.Format], "file": "/ammo", "passes": 1}
@@ -484,6 +496,7 @@ func runC09(spec *hutil.Spec, out *hutil.Out) {
 	options := [][]string{nil, {"[A: 2]"}, {"[Host: opt.example]"}, {"[A: 2]", "[B: 3]"}, {"[X-B: z]", "[host: opt.example]"}}
 	idx := 0
 	nkCount := 0
+	bigCount := 0
 	for _, format := range []string{"uri", "uripost", "raw", "jsonline"} {
 		var cells []C09Cell
 		c09files(format, spec.Thorough(), func(f File) {
@@ -508,6 +521,10 @@ func runC09(spec *hutil.Spec, out *hutil.Out) {
 								continue
 							}
 							cells = append(cells, C09Cell{File: f, Option: opt, SSL: ssl, NoKeep: nk, Instances: inst, Gun: "http"})
+							if bigCount++; !nk && oi == 0 && entries(f.Items) >= 2 && bigCount%11 == 0 {
+								// a target with large responses must not cost the instance its connection
+								cells = append(cells, C09Cell{File: f, Option: opt, SSL: ssl, NoKeep: nk, Instances: inst, Gun: "http", RespSize: 300 << 10})
+							}
 						}
 					}
 				}
